@@ -115,6 +115,15 @@ func (s *script) finishHeld(hc *heldCall, from int) {
 // real code panicked). It reports whether all of them returned.
 func (s *script) unblock() bool {
 	all := true
+	if s.e.stuck {
+		// A server lock was left held: a parked request cannot finish.
+		for _, hc := range s.helds {
+			if hc.held {
+				return false
+			}
+		}
+		return true
+	}
 	for _, hc := range s.helds {
 		if !hc.held {
 			continue
